@@ -181,7 +181,97 @@ def _strategy():
     })
 
 
+def _machine():
+    """state-aware generation: the rules step the reference queue, so 'enqueue a duplicate of something that IS queued',
+    'dequeue while something is there', 'lower max_queue_size below the CURRENT length' are chosen on purpose"""
+    from hypothesis import strategies as st
+    from hypothesis.stateful import RuleBasedStateMachine, rule, precondition, initialize
+
+    class QueueHistory(RuleBasedStateMachine):
+        STEPS = 40
+
+        def __init__(self):
+            super().__init__()
+            self.model = RefQueue(6)
+            self.frames = []
+            self.ops = []
+            self.start_frag = True
+            self.via_node = False
+            self.shared = {}
+
+        @initialize(start=st.booleans(), via=st.booleans())
+        def setup(self, start, via):
+            self.start_frag, self.via_node = start, via
+
+        def _frame(self, spec):
+            if spec not in self.frames:
+                self.frames.append(spec)
+            return self.frames.index(spec)
+
+        @rule(frm=st.sampled_from([0o1, 0o2, 0o15, 0o4444]), fid=st.integers(0, 5), typ=st.sampled_from([0, 1, 65, 127, 128, 131, 193, 255]),
+              rsv=st.integers(0, 255), body=st.binary(max_size=24), mode=st.integers(0, 2))
+        def enqueue_fresh(self, frm, fid, typ, rsv, body, mode):
+            spec = [frm, 0, fid, typ, rsv, body.hex()]
+            self.ops.append(["enq", self._frame(spec), mode])
+            self.model.enqueue((frm, 0, fid, typ, rsv, body))
+            if mode:
+                self.shared[mode] = True
+
+        @precondition(lambda self: len(self.model) > 0)
+        @rule(k=st.integers(0, 5), other_body=st.booleans(), mode=st.integers(0, 2), body=st.binary(max_size=8))
+        def enqueue_duplicate_of_queued(self, k, other_body, mode, body):
+            it = self.model.items[k % len(self.model)]
+            spec = [it[0], it[1], it[2], it[3], (it[4] + 1) % 256 if other_body else it[4], (body if other_body else it[5]).hex()]
+            self.ops.append(["enq", self._frame(spec), mode])
+            self.model.enqueue((spec[0], spec[1], spec[2], spec[3], spec[4], bytes.fromhex(spec[5])))
+
+        @precondition(lambda self: bool(self.shared))
+        @rule(k=st.integers(0, 1))
+        def mutate_shared_object(self, k):
+            self.ops.append(["mut", k])
+
+        @precondition(lambda self: len(self.model) > 0)
+        @rule()
+        def dequeue(self):
+            self.ops.append(["deq"])
+            self.model.dequeue()
+
+        @rule()
+        def dequeue_any(self):
+            self.ops.append(["deq"])
+            self.model.dequeue()
+
+        @rule()
+        def peek(self):
+            self.ops.append(["peek"])
+
+        @precondition(lambda self: len(self.model) > 0)
+        @rule(below=st.integers(0, 3))
+        def lower_capacity_below_length(self, below):
+            n = max(0, len(self.model) - below)
+            self.ops.append(["maxq", n])
+            self.model.max_size = n
+
+        @rule(n=st.integers(0, 8))
+        def set_capacity(self, n):
+            self.ops.append(["maxq", n])
+            self.model.max_size = n
+
+        @rule()
+        def toggle_fragmentation(self):
+            self.ops.append(["toggle"])
+
+        def case(self):
+            if not self.ops or not self.frames:
+                return None
+            return {"start_frag": self.start_frag, "via_node": self.via_node, "frames": self.frames, "ops": self.ops}
+
+    return QueueHistory
+
+
 def parts(tier):
     if tier == "quick":
-        return [Part("enum-depth4", "enum", _enum(4), exhaustive=True), Part("generated", "gen", _strategy, n=3000)]
-    return [Part("enum-depth6", "enum", _enum(6), exhaustive=True), Part("generated", "gen", _strategy, n=100000)]
+        return [Part("enum-depth4", "enum", _enum(4), exhaustive=True), Part("generated", "gen", _strategy, n=3000),
+                Part("state-machine", "machine", _machine, n=1600)]
+    return [Part("enum-depth6", "enum", _enum(6), exhaustive=True), Part("generated", "gen", _strategy, n=100000),
+            Part("state-machine", "machine", _machine, n=60000)]
